@@ -247,6 +247,23 @@ def recalcCovers (w : World) (r : StepResult) : Bool :=
     else true
   | _, _, _, _ => true
 
+/-- the reconcile runs a clean-up sequence or may run the continuous-release reset -/
+def cleaningOrRolling (ro : Rollout) : Bool :=
+  (ro.phase = .progressing && (ro.reason = .finalising || ro.reason = .cancelling || ro.reason = .inRolling)) ||
+  (ro.phase = .terminating && ro.term = .inTerminating) || ro.phase = .disabling
+
+/-- **C03 / C10 / C05** — "release the workload from the BatchRelease" is left behind only when the BatchRelease is really
+    gone: the clean-up cursor (and the reset of a superseded release) moves past `ReleaseWorkloadControl` only in a state
+    without BatchRelease — never on the strength of having issued the Delete.  (A BatchRelease that is still terminating
+    would otherwise be taken for the next release's: same name, and with an unchanged rollout-id the same spec.) -/
+def releaseWaitsGone (w : World) (r : StepResult) : Bool :=
+  match w.ro.sub, r.w.ro.sub with
+  | some s, some s' =>
+    if cleaningOrRolling w.ro ∧ ¬ r.err ∧ s.finStep = .releaseWorkloadControl ∧ s'.finStep ≠ .releaseWorkloadControl then
+      r.w.br.isNone
+    else true
+  | _, _ => true
+
 /-- **C04 / C02** — while the workload's status is not consistent with its spec (`generation ≠ observedGeneration`: the
     controller cannot tell which revision the pods run, the finder reports an empty `Workload`) a reconcile of a Rollout
     that is not being deleted only waits: nothing is written to the BatchRelease, the workload or the network, the
@@ -275,6 +292,9 @@ def stepOracles (w : World) (r : StepResult) : List (String × Bool) :=
    ("C02.no_self_jump", noSelfJump w r),
    ("C10.reset_routes_first", resetRoutesFirst w r),
    ("C02.ready_needs_pause", readyNeedsPause w r),
+   ("C03.release_waits_gone", releaseWaitsGone w r),
+   ("C10.release_waits_gone", releaseWaitsGone w r),
+   ("C05.release_waits_gone", releaseWaitsGone w r),
    ("C01.recalc_covers_released", recalcCovers w r),
    ("C04.inconsistent_waits", inconsistentWaits w r),
    ("C05.inconsistent_waits", inconsistentWaits w r),
@@ -361,6 +381,8 @@ def canaryStyleOracles (w : World) (r : StepResult) : List (String × Bool) :=
   [("C03.first_step_pins_stable", firstStepPinsStable w r),
    ("C03.upgrade_records_pod_hash", upgradeRecordsPodHash w r),
    ("C03.bypass_partition_only", bypassPartitionOnly w r),
-   ("C04.bypass_partition_only", bypassPartitionOnly w r)]
+   ("C04.bypass_partition_only", bypassPartitionOnly w r),
+   -- C02: skipping StepTrafficRouting means the step's traffic rule is never applied before the step advances
+   ("C02.bypass_partition_only", bypassPartitionOnly w r)]
 
 end RV.Oracle.RolloutSM
